@@ -216,6 +216,24 @@ func programs() []*Program {
 		},
 		Cfg: func() *Config { return baseConfig("G1") }})
 
+	// schema_types: another Terraform type for single occurrences of a time field; time_type itself has a
+	// type constructor, the overrides have one or none
+	add(&Program{Name: "P-schematypes", Quick: true,
+		File: func() *FileSpec {
+			st := msg("ST", nil, tsfld("Day"), tsfld("At").nonnull(), tsfld("Plain"), fld("Own", TString), mfld("Sub", "STSub"))
+			sub := msg("STSub", nil, tsfld("When"), tsfld("Other"))
+			return &FileSpec{Name: "p.proto", Msgs: []*M{sub, st}}
+		},
+		Cfg: func() *Config {
+			c := baseConfig("ST")
+			c.TimeType.TypeConstructor = "UsePlainTime()"
+			dt := SchemaType{Type: "DateType", ValueType: "DateValue", CastToType: "time.Time", CastFromType: "time.Time"}
+			dc := dt
+			dc.TypeConstructor = "UseRFC3339Date()"
+			c.SchemaTypes = map[string]SchemaType{"ST.Day": dt, "ST.At": dc, "STSub.When": dt}
+			return c
+		}})
+
 	add(&Program{Name: "P-empty", Quick: true,
 		File: func() *FileSpec {
 			em := msg("Em", []string{"O"}, fld("Own", TString), mfld("E", "Empty"), mfld("EV", "Empty").nonnull(),
